@@ -444,8 +444,9 @@ class StrategyBase(Node):
         """
         TimeSeries of unallocated capital.
         """
-        # no stale check needed
-        return self._cash
+        if self.root.stale:
+            self.root.update(self.now, None)
+        return self._cash.loc[: self.now]
 
     @property
     def fees(self):
